@@ -413,6 +413,8 @@ def run(prog, chk):
     event_translation_tables(prog, chk, "C14.T11")
     poll_failure_not_on_eintr(prog, chk, "C14.T12")
     timer_key_is_execution_time(prog, chk, "C14.T13")
+    from . import c13 as _c13
+    _c13.backlog_creation_registers_write(prog, chk, "C14.T14")      # writable-with-backlog is dispatched only if the backlog's creation registered it
 
 
 def backlinks_cleared_before_removal(prog, chk, rid):
